@@ -323,6 +323,49 @@ def ex_exprtables():
 EXTRACTORS["ExprTables"] = ex_exprtables
 
 
+def ex_strtables():
+    """the expression printer of stringify/expr.rs: parenthesising rule and the arms of the unary / binary / conditional /
+    member / call variants (operator text and the level each operand is printed at)"""
+    sx = re.sub(r"\s+", " ", _read("glass-easel-template-compiler/src/stringify/expr.rs"))
+    head = ('let cur_level = ExpressionLevel::from_expression(expression); if cur_level > accept_level { stringifier.write_str("(")?; '
+            'expression_strigify_write(expression, stringifier, ExpressionLevel::Cond)?; stringifier.write_str(")")?; return Ok(()); }')
+    paren_ok = head in sx
+    un = re.findall(r'Expression::(\w+) \{ value, location \} => \{ stringifier\.write_token\("([^"]*)", None, location\)\?; '
+                    r'expression_strigify_write\(&value, stringifier, ExpressionLevel::(\w+)\)\?; \}', sx)
+    bi = re.findall(r'Expression::(\w+) \{ left, right, location, \} => \{ expression_strigify_write\(&left, stringifier, ExpressionLevel::(\w+)\)\?; '
+                    r'stringifier\.write_token\("([^"]*)", None, location\)\?; expression_strigify_write\(&right, stringifier, ExpressionLevel::(\w+)\)\?; \}', sx)
+    cond = re.search(r'Expression::Cond \{ cond, true_br, false_br, question_location, colon_location, \} => \{ expression_strigify_write\(&cond, stringifier, '
+                     r'ExpressionLevel::(\w+)\)\?; stringifier\.write_token\("\?", None, question_location\)\?; expression_strigify_write\(&true_br, stringifier, '
+                     r'ExpressionLevel::(\w+)\)\?; stringifier\.write_token\(":", None, colon_location\)\?; expression_strigify_write\(&false_br, stringifier, '
+                     r'ExpressionLevel::(\w+)\)\?; \}', sx)
+    if len(un) != 6 or len(bi) != 23 or not cond:
+        raise core.BrokenTie("extract:expression_strigify_write arms", f"{len(un)} unary, {len(bi)} binary, cond={bool(cond)}")
+    member = ('expression_strigify_write(obj, stringifier, ExpressionLevel::Member)?; if is_number { stringifier.write_str(")")?; } '
+              'stringifier.write_token(".", None, dot_location)?; stringifier.write_token(&field_name, Some(&field_name), field_location)?;') in sx
+    number_paren = ('let is_number = matches!( &**obj, Expression::LitInt { .. } | Expression::LitFloat { .. } ); if is_number { stringifier.write_str("(")?; }') in sx
+    index = ('expression_strigify_write(obj, stringifier, ExpressionLevel::Member)?; stringifier.write_token("[", None, &bracket_location.0)?; '
+             'expression_strigify_write(&field_name, stringifier, ExpressionLevel::Cond)?; stringifier.write_token("]", None, &bracket_location.1)?;') in sx
+    call = ('expression_strigify_write(func, stringifier, ExpressionLevel::Member)?; stringifier.write_token("(", None, &paren_location.0)?; '
+            'for (index, arg) in args.iter().enumerate() { if index > 0 { stringifier.write_str(",")?; } '
+            'expression_strigify_write(&arg, stringifier, ExpressionLevel::Cond)?; } stringifier.write_token(")", None, &paren_location.1)?;') in sx
+    out = ["/-! GENERATED from /repo/glass-easel-template-compiler/src/stringify/expr.rs by checklib/extractors.py — do not edit. -/",
+           "namespace GE.Extracted",
+           f"def strParenRuleOk : Bool := {'true' if paren_ok else 'false'}",
+           "/-- (variant, operator text, operand level) -/",
+           "def strUnArms : List (String × String × String) := [\n" + ",\n".join("  (%s, %s, %s)" % (lean_str(a), lean_str(b), lean_str(c)) for a, b, c in un) + "]",
+           "/-- (variant, left level, operator text, right level) -/",
+           "def strBinArms : List (String × String × String × String) := [\n" + ",\n".join("  (%s, %s, %s, %s)" % tuple(lean_str(x) for x in r) for r in bi) + "]",
+           "def strCondArm : String × String × String := (%s, %s, %s)" % tuple(lean_str(x) for x in cond.groups()),
+           f"def strMemberArmOk : Bool := {'true' if (member and number_paren) else 'false'}",
+           f"def strIndexArmOk : Bool := {'true' if index else 'false'}",
+           f"def strCallArmOk : Bool := {'true' if call else 'false'}",
+           "end GE.Extracted\n"]
+    return "\n".join(out)
+
+
+EXTRACTORS["StrTables"] = ex_strtables
+
+
 def ex_parsefacts():
     src = _read("glass-easel-template-compiler/src/parse/tag.rs")
     # the two invalid-attribute-name loops
